@@ -258,8 +258,15 @@ def rule_only_named(ctx):
     t = render(mainfn["body"]).replace(" ", "")
     ctx.check(R, "main/file-filter-installed", t.count("filter_by_file(report,&user_inputs)") >= 2 and "letuser_inputs=runner.file_library().user_inputs().clone();" in t, "", site(MAIN, mainfn))
     tol, desc = reportflow.filter_tolerance()
-    ok = tol is not None and tol != "all" and set(tol) <= {"Error"}
-    ctx.check(R, "filter_by_file/label-less-findings-never-pass", ok, "label-less categories accepted: %s; a warning without location (e.g. about an only-included file) would be displayed for every file" % ("all" if tol == "all" else sorted(tol or [])), MAIN)
+    # a finding (non-error) without a guaranteed primary label must not pass the file filter, otherwise it is
+    # displayed for only-included files as well
+    loose = [p for p in reportflow.producers() if p["category"] != "error" and p["label"] not in ("always", "if-file-id", "if-meta")]
+    for p in loose:
+        cat = p["category"].capitalize()
+        passes = tol == "all" or (isinstance(tol, set) and cat in tol)
+        ctx.check(R, "filter_by_file/label-less-finding-does-not-pass/%s::%s" % (p["qual"], p["fn"]), not passes, "this %s has no guaranteed location and the file filter lets label-less %ss through: it is displayed for only-included files too" % (p["category"], p["category"]), site(p["file"], p["node"]))
+    ctx.check(R, "filter_by_file/recognised", tol is not None, desc[:160], MAIN)
+    ctx.ok(R, "filter_by_file/label-less-findings", "%d finding producer(s) without a guaranteed label; label-less categories accepted by the filter: %s" % (len(loose), "all" if tol == "all" else sorted(tol or [])), MAIN)
     for kind in ("template", "function"):
         f = find_fn(RUN, kind + "_names")
         if f is None:
